@@ -89,12 +89,15 @@ def _one(t):
         script(m, _)
         results.append(dict(rets))
         return None
-    ws = bpa.analyse(mod, script2, lambda: ([], regions()), max_worlds=32, max_steps=12000000, gcache=ctx.gcache)
+    ws = bpa.analyse(mod, script2, lambda: ([], regions()), max_worlds=32, max_steps=12000000, gcache=ctx.gcache, oob_limit=0)
     where = FC.fnloc(ctx, GET_DATA)
     # pair every finished world with the return values recorded during its execution
     done = [w for w in ws if w.status in ('ok',)]
     oks, err = FC.ok_worlds(ws)
     if err:
+        df = FC.definite_fault(ws)
+        if df:
+            return [('violation', key + ':fault', '%s [%s]: %s' % (where, desc, df))], 0
         return [('undecided', key, '%s [%s]: %s' % (where, desc, err))], 0
     # results[] has one entry per execution that reached the end of the script, in execution order
     k = 0
@@ -204,7 +207,18 @@ def run(ctx, tier, res, tag=''):
     for fn in (GET_PATH, GET_DATA, CALC):
         ctx.fn(fn)
     sh = shapes(tier)
-    outs = pmap(_one, sh)
+    # light shapes first; the heavy ones (messages of several thousand octets) only if the light ones hold - on a
+    # broken tree they fail the same way and cost minutes each, and the verdict is a violation already
+    def weight(t):
+        return V.path_wire_len(t[0], t[1]) + V.data_wire_len(t[2], t[3])
+    light = [t for t in sh if weight(t) <= 4096]
+    heavy = [t for t in sh if weight(t) > 4096]
+    outs1 = pmap(_one, light)
+    if any(issues for (issues, n_ok) in outs1) and heavy:
+        res.notes.append('%d large %s shapes were not analysed%s: smaller shapes already fail' % (len(heavy), 'decode', tag))
+        sh, outs = light, outs1
+    else:
+        sh, outs = light + heavy, outs1 + pmap(_one, heavy)
     for t, (issues, n_ok) in zip(sh, outs):
         res.count('decode shapes analysed (mode x path length x datatype x count x destination)' + tag)
         res.ok(n_ok)
